@@ -10,6 +10,7 @@ import (
 	"golang.org/x/tools/go/ssa"
 
 	"dcmcheck/internal/load"
+	"dcmcheck/internal/pta"
 	"dcmcheck/internal/report"
 )
 
@@ -64,12 +65,119 @@ func (c *Ctx) registrations() []registration {
 				if n := load.NamedOf(v.Type()); n != nil {
 					r.typ = n
 				}
+				if r.syntax == "" || r.ctor == nil {
+					// not the direct form RegisterCodec(transfer.X, NewY()): a registration table, a
+					// loop, a syntax taken from the codec's own field — resolve through points-to
+					if rs := c.registrationsByPointsTo(call, fn); len(rs) > 0 {
+						out = append(out, rs...)
+						continue
+					}
+				}
 				out = append(out, r)
 			}
 		}
 	}
 	sort.Slice(out, func(i, j int) bool { return out[i].syntax < out[j].syntax })
 	return out
+}
+
+// registrationsByPointsTo resolves one RegisterCodec call with engine E1: every codec object that
+// can reach the call gives one registration (its allocating function is the constructor); the
+// transfer syntax is what the syntax argument — or, when that argument is a field of the codec
+// itself, that field of this object — points to, named by the go-dicom transfer.* variable holding it.
+func (c *Ctx) registrationsByPointsTo(call ssa.CallInstruction, fn *ssa.Function) []registration {
+	e, err := c.effects()
+	if err != nil {
+		return nil
+	}
+	a := e.A
+	// names of the transfer.* globals by the object they point to
+	names := map[*pta.Obj][]string{}
+	for _, o := range a.Objects() {
+		if o.Kind != pta.Global || o.Glob == nil || o.Glob.Pkg == nil || !strings.HasSuffix(o.Glob.Pkg.Pkg.Path(), "/transfer") {
+			continue
+		}
+		for _, l := range a.Contents(pta.Loc{Obj: o, Path: ""}) {
+			names[l.Obj] = append(names[l.Obj], o.Glob.Name())
+		}
+	}
+	codecVal := unwrapIface(call.Common().Args[2])
+	synArg := call.Common().Args[1]
+	field := ""
+	if u, ok := synArg.(*ssa.UnOp); ok && u.Op == token.MUL {
+		if fa, ok := u.X.(*ssa.FieldAddr); ok && (fa.X == codecVal || sameBase(fa.X, codecVal)) {
+			field = "." + fieldNameOf(fa.X.Type(), fa.Field)
+		}
+	}
+	var out []registration
+	seen := map[string]bool{}
+	for _, ctx := range []pta.Ctx{pta.CtxInit, pta.CtxRun} {
+		for _, l := range a.PointsTo(codecVal, ctx) {
+			o := l.Obj
+			n, ok := o.Type.(*types.Named)
+			if !ok || o.Kind != pta.Fresh || o.Fn == nil {
+				continue
+			}
+			var syn []pta.Loc
+			if field != "" {
+				syn = a.Contents(pta.Loc{Obj: o, Path: field})
+			} else {
+				syn = a.PointsTo(synArg, ctx)
+			}
+			nameSet := map[string]bool{}
+			for _, sl := range syn {
+				for _, nm := range names[sl.Obj] {
+					nameSet[nm] = true
+				}
+			}
+			name := ""
+			if len(nameSet) == 1 {
+				for nm := range nameSet {
+					name = nm
+				}
+			}
+			if name == "" && field != "" {
+				// go-dicom builds all its Syntax values in one place, so the points-to abstraction
+				// cannot tell them apart; the constructor says which variable it stored
+				name = globalStoredIntoField(o.Fn, strings.TrimPrefix(field, "."))
+			}
+			k := fmt.Sprintf("%p/%s/%s", o.Fn, n.Obj().Name(), name)
+			if seen[k] {
+				continue
+			}
+			seen[k] = true
+			out = append(out, registration{syntax: name, ctor: o.Fn, typ: n, site: call, fn: fn})
+		}
+	}
+	return out
+}
+
+// globalStoredIntoField: the name of the package-level variable whose value ctor stores into the
+// named field of the struct it builds (exactly one such store), else "".
+func globalStoredIntoField(ctor *ssa.Function, field string) string {
+	name := ""
+	for _, b := range ctor.Blocks {
+		for _, ins := range b.Instrs {
+			st, ok := ins.(*ssa.Store)
+			if !ok {
+				continue
+			}
+			fa, ok := st.Addr.(*ssa.FieldAddr)
+			if !ok || fieldNameOf(fa.X.Type(), fa.Field) != field {
+				continue
+			}
+			u, ok := st.Val.(*ssa.UnOp)
+			if !ok || u.Op != token.MUL {
+				return ""
+			}
+			g, ok := u.X.(*ssa.Global)
+			if !ok || (name != "" && name != g.Name()) {
+				return ""
+			}
+			name = g.Name()
+		}
+	}
+	return name
 }
 
 // ctorFieldConsts: constant values the constructor stores into the fields of the codec it builds.
